@@ -7,4 +7,5 @@ Extraction Language OCaml.
 Separate Extraction
   N.add N.mul N.div_eucl N.eqb N.ltb N.of_nat
   Model.run Model.all_outcomes Model.canonical_order Model.getN Model.topo
-  Model.v_code Model.v_fixed Model.v_unfixed Model.Known_P15 Model.Known_downstream_of_forced Model.tainted.
+  Model.v_code Model.v_fixed Model.v_unfixed Model.Known_P15 Model.Known_downstream_of_forced Model.tainted
+  Model.msens Model.Known_glob_touch.
